@@ -315,7 +315,7 @@ def run_case(ctx, dx, only=None):
         enc_pairs.append((ex if left is x else S.encode(left), S.encode(y)))
         oracle_pair(ctx, cls, dx, dy, left, y, ob, kind, attr, demand)
     hash_correspondence(ctx, cls, dx, x, objs, obs, only)
-    if only is None and ctx.rng.random() < (0.5 if ctx.tier == "quick" else 0.34):  # histories on a part of the instances
+    if only is None and ctx.rng.random() < (0.5 if ctx.tier == "quick" else 0.08):  # histories on a part of the instances
         run_histories(ctx, cls, dx, x)
     # correspondence: the model's verdicts for == and for "hash keys agree" on the same pairs
     model = model_pairs(ctx, enc_pairs)
